@@ -28,7 +28,8 @@ class GM(genx.GX):
 
 
 class ModCase:
-    def __init__(self, shape, modules, prog, entry, inputs, placement):
+    def __init__(self, shape, modules, prog, entry, inputs, placement, dup_import=()):
+        self.dup_import = set(dup_import)   # modules that spell one of their imports twice
         self.shape = shape
         self.modules = modules      # list of dict(name, imports=[names], funcs=[indices into prog.funcs], globals=[(ty, nm)])
         self.prog = prog            # the single-module program (all globals, all functions in dependency order)
@@ -39,6 +40,8 @@ class ModCase:
     def module_source(self, k):
         m = self.modules[k]
         imports = ['import "%s" ;' % n for n in m["imports"]]
+        if k in getattr(self, "dup_import", ()) and imports:
+            imports = imports + imports[:1]
         decls = ["struct %s { %s }" % (sn, " ".join("%s %s ;" % (M.tname(ft), fn) for ft, fn in fields))
                  for sn, fields in m.get("structs", [])]
         decls += ["%s ;" % " ".join(M.type_tokens(ty) + [nm]) for ty, nm in m["globals"]]
@@ -58,7 +61,8 @@ class ModCase:
         return M.to_source(self.prog, "full")
 
     def show(self):
-        out = ["// shape=%s placement=%r" % (self.shape, self.placement)]
+        out = ["// shape=%s placement=%r%s" % (self.shape, self.placement,
+                                                (" import-spelled-twice-in=%r" % sorted(self.dup_import)) if getattr(self, "dup_import", None) else "")]
         for k, m in enumerate(self.modules):
             out.append("// ---- module %s ----" % m["name"])
             out.append(self.module_source(k))
@@ -86,6 +90,9 @@ def modules_case(draw, n_inputs=2):
         mglobals = []
         if with_globals and draw(st.booleans()):
             mglobals.append((draw(st.sampled_from([INT, FLOAT])), "g%d" % k))
+        if shared_struct and k != 0 and 0 in dag[k] and draw(st.integers(0, 9)) < 5:
+            # a global whose type is the struct imported from m0
+            mglobals.append((M.struct("S0"), "gs%d" % k))
         all_globals += mglobals
         # visible globals: only this module's own
         g.globals = {nm: ty for ty, nm in mglobals}
@@ -129,7 +136,7 @@ def modules_case(draw, n_inputs=2):
                 call = M.Call(callee.name, args, callee.ret, ci)
                 tmp = "c%d_%d" % (k, j)
                 f.body.stmts.insert(0, M.Decl(callee.ret, tmp, call))
-                if mglobals and callee.ret in (INT, FLOAT) and (mglobals[0][0] == FLOAT or callee.ret == INT):
+                if mglobals and mglobals[0][0] in (INT, FLOAT) and callee.ret in (INT, FLOAT) and (mglobals[0][0] == FLOAT or callee.ret == INT):
                     gv = M.Var(mglobals[0][1], mglobals[0][0])
                     f.body.stmts.insert(1, M.ExprStmt(M.Assign(gv, "=", M.Bin("+", gv, M.Var(tmp, callee.ret)))))
             g.funcs.append(f)
@@ -145,7 +152,8 @@ def modules_case(draw, n_inputs=2):
         gl = {nm: draw(gen.value_of(ty, prog)) for ty, nm in all_globals}
         inputs.append((args, gl))
     placement = [draw(st.sampled_from(["first", "first", "between", "last"])) for _ in range(n)]
-    return ModCase(shape, modules, prog, "f", inputs, placement)
+    dup = [k for k in range(n) if dag[k] and draw(st.integers(0, 9)) < 2]
+    return ModCase(shape, modules, prog, "f", inputs, placement, dup)
 
 
 def _calls_any(f, targets):
